@@ -260,6 +260,24 @@ class MyList(list):
         return 'MyList(%s)' % list.__repr__(self)
 
 
+class AnyEq:
+    """a value that claims to be equal to everything (like unittest.mock.ANY): code that looks for its
+    own sentinels with == / `in` instead of `is` takes it for one of them"""
+    __slots__ = ()
+
+    def __eq__(self, other):
+        return True
+
+    def __ne__(self, other):
+        return False
+
+    def __hash__(self):
+        return 7
+
+    def __repr__(self):
+        return 'ANYEQ'
+
+
 class MyTuple(tuple):
     """an immutable builtin subclassed WITH an instance __dict__: items cannot be assigned, attributes can"""
     def __repr__(self):
